@@ -284,6 +284,23 @@ def scanLoop : Nat → Nat → Bytes → List Entry → Outcome (List Entry × B
     | .crash => .crash
     | .outOfFuel => .outOfFuel
 
+/-- the same loop, recording what `nextInstance` stores as `inst.loc.begin` (`_file.tellg()` before `readInstanceNumber`): for every
+    indexed instance the offset, counted from the start of the data section, at which its scan started — the start of the layout in front
+    of its `#`.  `pos` = offset of `s` -/
+def scanBeginsLoop : Nat → Nat → Nat → Bytes → List Nat → Outcome (List Nat)
+  | 0, _, _, _, _ => .outOfFuel
+  | n + 1, fuel, pos, s, acc =>
+    match nextInstance fuel s with
+    | .ok (some (_, r)) => scanBeginsLoop n fuel (pos + (s.length - r.length)) r (pos :: acc)
+    | .ok none => .ok acc.reverse
+    | .fail => .fail
+    | .crash => .crash
+    | .outOfFuel => .outOfFuel
+
+/-- the recorded offsets of a data section, in file order (one per entry of `scan`) -/
+def scanBegins (s : Bytes) : Outcome (List Nat) :=
+  scanBeginsLoop (s.length + 1) (4 * s.length + 16) 0 s []
+
 /-- `lazyFileReader::needKW`: compares byte by byte and CONSUMES what it compared, the mismatching byte included -/
 def needKW : Bytes → Bytes → Bool × Bytes
   | [], s => (true, s)
